@@ -127,3 +127,23 @@ def error_result_reaches_cancel(ctx, rule):
         ocs = [x for x in b.call_blocks(REACTOR + 'on_cancel_tasks') if dl in b.derived_from(op_local(b.term[x]['args'][2])) and x in b.reach_after(bi)]
         ctx.ob(rule, f'{o.split("::")[-1]}|cancels ids returned by task_failed', bool(ocs),
                f'{o.split("::")[-1]} must hand the ids returned by task_failed to on_cancel_tasks (otherwise a max-fails abort is announced but the core keeps and runs the tasks)', b.loc(bi))
+
+
+def compute_builder_index_reset(ctx, rule):
+    prog = ctx.prog
+    cmo = prog.body(T + 'server::task::ComputeTasksBuilder::create_message_on_overflow')
+    takes = [bi for bi in cmo.call_blocks('core::mem::take') if 'shared_data' in local_field_sources(cmo, op_local(cmo.term[bi]['args'][0]))]
+    clears = [bi for bi in cmo.call_blocks(lambda c: c.endswith('::clear')) if 'configuration_index' in local_field_sources(cmo, op_local(cmo.term[bi]['args'][0]))]
+    ctx.require(takes, f'{rule}: mem::take(shared_data) missing')
+    ok, wit = must_pass(cmo, takes, clears)
+    ctx.ob(rule, 'create_message_on_overflow|take shared_data -> clear configuration_index', ok,
+           'configuration_index (indices into shared_data) is cleared whenever shared_data is taken; a stale index gives a task of the next message another task\'s data or an out-of-bounds index that panics the worker', cmo.loc(takes[0]))
+
+
+def listener_ids_unique(ctx, rule):
+    prog = ctx.prog
+    rl = prog.body(STREAMER + 'register_listener')
+    uses_len = any(c in ('alloc::vec::Vec::len',) for bi, t, c in rl.calls() if bi in rl.reachable())
+    uses_max = any(c and (c.endswith('Iterator::max') or c.endswith('::max')) for p in prog.with_closures(rl.path) for bi, t, c in prog.bodies[p].calls())
+    ctx.ob(rule, 'register_listener|fresh id', uses_max and not uses_len,
+           'listener ids are max(existing)+1; a length-based id collides with a live listener after one leaves (the wrong listener is unregistered and a later unregister unwraps None)', rl.loc())
